@@ -20,12 +20,16 @@ def run(ctx):
                       "fails with status 1 when it refuses")
     ctx.rule("R09-5", "set_env updates the process environment iff the name is already exported, else the shell map; "
                       "get_env consults both")
+    ctx.rule("R09-7", "expansion reads the exported environment before the shell-local variables (export does not clear a "
+                      "same-named shell variable, and set_env writes only the environment once a name is exported), or "
+                      "export removes the shell-local entry")
     ctx.rule("R09-6", "export calls env::set_var(name, value) for every parsed NAME=value")
     for crate in ctx.crates:
         cd_rule(ctx, crate)
         prefix_rule(ctx, crate)
         envp_rule(ctx, crate)
         api_rules(ctx, crate)
+        precedence_rule(ctx, crate, "R09-7")
 
 
 def cd_rule(ctx, crate):
@@ -217,3 +221,36 @@ def api_rules(ctx, crate):
             ok = len(a) == 2 and from_cap(a[0], 1) and from_cap(a[1], 2) and in_loop
         ctx.ob("R09-6", e.path, "export: env::set_var(capture 1, value from capture 2) for every parsed pair", ok,
                key="R09-6|%s|setvar" % e.path, crate=crate.kind)
+
+
+def precedence_rule(ctx, crate, rule):
+    """readers must agree with the writers: `export NAME=v` sets only the process environment and leaves a
+    shell-local NAME in place, so `$NAME` must prefer the environment"""
+    b = crate.fn("shell::expand_one_env")
+    if not ctx.require(b is not None, rule, "%s|anchor" % rule, "shell::expand_one_env not found"):
+        return
+    ctx.analysed(b)
+    # does export clear the local entry?
+    clears = False
+    e = crate.fn("builtins::export::run")
+    if e is not None:
+        for bb, t, c in e.calls():
+            if last_seg(c) == "remove" and any(flow.is_field_named(x, "envs") for a in e.call_args(bb) for x in mir.subexprs(strip_sites(a))):
+                clears = True
+    local_reads = [bb for bb, t, c in b.calls() if c.endswith("Shell::get_env") or (
+        last_seg(c) == "get" and any(flow.is_field_named(x, "envs") for a in b.call_args(bb) for x in mir.subexprs(strip_sites(a))))]
+    env_reads = [bb for bb, t, c in b.calls() if mir.short(c) == "std::env::var"]
+    ok = clears
+    detail = "export clears the shell-local entry" if clears else ""
+    if not clears:
+        ok = bool(env_reads) and bool(local_reads)
+        for lb in local_reads:
+            facts = dom_facts(b, lb)
+            # reached only after env::var(key) failed
+            if not any(a[0] == "discr" and v == "Err" and a[1][0] == "call" and mir.short(a[1][1]) == "std::env::var"
+                       for a, v in facts):
+                ok = False
+        detail = "shell-local lookup %s" % ("only after env::var(key) returned Err" if ok else
+                                            "is not preceded by the environment lookup: after `N=a; export N=b`, `$N` yields the stale a")
+    ctx.ob(rule, b.path, "`$NAME` prefers the exported value over a same-named shell variable", ok,
+           key="%s|%s|precedence" % (rule, b.path), crate=crate.kind, detail=detail)
